@@ -250,7 +250,7 @@ func abs(x float64) float64 {
 
 // ---------------------------------------------------------------- stores
 
-var c14StoreMut = []string{"simple", "simple", "simple", "merge", "clear", "reweight", "encdec", "encdouble", "proto"}
+var c14StoreMut = []string{"simple", "simple", "simple", "merge", "decmerge", "protomerge", "clear", "reweight", "encdec", "encdouble", "proto"}
 var c14StoreRead = []string{"observe", "foreach-stop", "bins", "keyatrank", "toproto", "encodeproto", "encode", "copy", "copy", "merge-argument"}
 
 type popSt struct {
